@@ -203,7 +203,8 @@ class C07(Prop):
     RULE = ("design recipes (named and unnamed elements, nested user data on every first-class element, "
             "cross-library references, shared definitions, late edits, top instance standalone / made "
             "from a definition / also a child) built through the API; a drawn clone root of every kind "
-            "(netlist, library, definition, instance, port, cable, wire, inner pin, outer pin); oracles: "
+            "(netlist, library, definition, instance, port, cable, wire, inner pin, outer pin), optional "
+            "pre-steps (detached clones, removed definition, foreign netlist, top moved twice); oracles: "
             "canonical structure equal, identity sets disjoint, wf incl. closure of every link, source "
             "identity snapshot unchanged (except documented reference-set growth), nested data not "
             "shared, query answers equal; then a drawn follow-up (edit history, uniquify, flatten, "
